@@ -22,9 +22,9 @@ func TestVerifWorker(t *testing.T) {
 		t.Fatal(err)
 	}
 	vkit.MainArgs(args, map[string]vkit.Check{
-		"C15": {Run: c15Run, Replay: c15Replay},
-		"C16": {Run: c16Run, Replay: c16Replay},
-		"C18": {Run: c18Run, Replay: c18Replay},
+		"C15":     {Run: c15Run, Replay: c15Replay},
+		"C16":     {Run: c16Run, Replay: c16Replay},
+		"C18":     {Run: c18Run, Replay: c18Replay},
 		"C18RACE": {Run: c18RaceRun},
 	})
 }
